@@ -1,6 +1,10 @@
 /* unit ops of slice B: bpm.c, sequence_distance.c (pair=1), bisectingKmeans.c (upgma, label_internal,
    create_tasks), task.c (sort_tasks) */
 #include "kvh.h"
+#include <stdint.h>
+struct msa;
+float kv_calc_distance(uint8_t *a, uint8_t *b, int la, int lb);
+float **kv_d_estimation(struct msa *msa, int *samples, int n, int pair);
 #include <math.h>
 #include "tldevel.h"
 #include "msa_struct.h"
@@ -135,7 +139,7 @@ static int op_calc_distance(int argc, char **argv, FILE *out)
         if(parse_codes(argv[1], &b, &lb)){ free(a); return 1; }
         /* the text is the longer one (b on ties) */
         int bad = (la > lb) ? any_big(a, la) : any_big(b, lb);
-        if(bad) fputs("fault", out); else print_f32(out, calc_distance(a, b, la, lb));
+        if(bad) fputs("fault", out); else print_f32(out, kv_calc_distance(a, b, la, lb));
         free(a); free(b);
         return 0;
 }
@@ -177,7 +181,7 @@ static int op_dist_matrix(int argc, char **argv, FILE *out)
         if(msa_big(msa)){ fputs("fault", out); rm_msa(msa); return 0; }
         int *samples = malloc(sizeof(int) * n);
         for(int i = 0; i < n; i++) samples[i] = i;
-        float **dm = d_estimation(msa, samples, n, 1);
+        float **dm = kv_d_estimation(msa, samples, n, 1);
         for(int i = 0; i < n; i++) for(int j = 0; j < n; j++){ if(i || j) fputc(',', out); print_f32(out, dm[i][j]); }
         gfree(dm);
         free(samples); rm_msa(msa);
